@@ -66,9 +66,9 @@ PROPS = {
                    "every call's error, threshold triggers (exactly the matching group, exactly once) and internal fan-out are compared with a reference model.",
         level_note="Single-threaded histories (the bubble cannot pre-empt inside the store's mutex); signatures are opaque bytes (the store never verifies them); 2t>n; exempt-duty cap not reached.",
         runs={
-            "quick": [dict(test="TestC07Model", checks=8000, shards=4), dict(test="TestC07Regression", mode="plain"), dict(test="TestC07Threads", checks=2000, shrinktime="20s")],
+            "quick": [dict(test="TestC07Model", checks=8000, shards=4), dict(test="TestC07Regression", mode="plain"), dict(test="TestC07Threads", checks=2000, shrinktime="20s"), dict(test="TestC07Interleave", checks=4000)],
             "thorough": [dict(test="TestC07Model", checks=150000, shards=12, timeout=3000), dict(test="TestC07Regression", mode="plain"),
-                         dict(test="TestC07Threads", checks=6000, shards=3, race=True, timeout=3000)],
+                         dict(test="TestC07Threads", checks=6000, shards=3, race=True, timeout=3000), dict(test="TestC07Interleave", checks=100000, shards=2, timeout=3000)],
         },
     ),
     "C17": dict(
